@@ -112,6 +112,19 @@ func c23CheckAll(in []byte, std bool) *c23Result {
 			}
 		}
 	}
+	// the same readers with the output aliased to the receiver (descending in place, the
+	// s.ReadASN1(&s, tag) idiom): the receiver must end up holding what a separate out would get
+	{
+		s := str()
+		var tag cbasn1.Tag
+		if ok := s.ReadAnyASN1(&s, &tag); ok != t.OK || (ok && (!bytes.Equal(s, t.Content) || byte(tag) != t.Tag)) {
+			res.fail("s.ReadAnyASN1(&s, _) [aliased]: ok=%v s=%x, want ok=%v contents=%x", ok, []byte(s), t.OK, t.Content)
+		}
+		s = str()
+		if ok := s.ReadAnyASN1Element(&s, &tag); ok != t.OK || (ok && !bytes.Equal(s, t.Full)) {
+			res.fail("s.ReadAnyASN1Element(&s, _) [aliased]: ok=%v s=%x, want ok=%v element=%x", ok, []byte(s), t.OK, t.Full)
+		}
+	}
 	queries := []byte{0x02, 0xa0}
 	if len(in) > 0 {
 		queries = []byte{in[0], in[0] ^ 0x20, 0x02}
@@ -142,6 +155,33 @@ func c23CheckAll(in []byte, std bool) *c23Result {
 		}
 		s = str()
 		res.acc(fmt.Sprintf("SkipASN1(%#02x)", q), s.SkipASN1(tag), want, s, t.Rest, why)
+		// aliased outputs
+		s = str()
+		if ok := s.ReadASN1(&s, tag); ok != want || (ok && !bytes.Equal(s, t.Content)) {
+			res.fail("s.ReadASN1(&s, %#02x) [aliased]: ok=%v s=%x, want ok=%v contents=%x", q, ok, []byte(s), want, t.Content)
+		}
+		s = str()
+		if ok := s.ReadASN1Element(&s, tag); ok != want || (ok && !bytes.Equal(s, t.Full)) {
+			res.fail("s.ReadASN1Element(&s, %#02x) [aliased]: ok=%v s=%x, want ok=%v element=%x", q, ok, []byte(s), want, t.Full)
+		}
+		s = str()
+		if ok := s.ReadASN1Bytes((*[]byte)(&s), tag); ok != want || (ok && !bytes.Equal(s, t.Content)) {
+			res.fail("s.ReadASN1Bytes((*[]byte)(&s), %#02x) [aliased]: ok=%v s=%x, want ok=%v contents=%x", q, ok, []byte(s), want, t.Content)
+		}
+		{
+			s = str()
+			var gotPresent bool
+			isPresent := len(in) > 0 && in[0] == q
+			ok := s.ReadOptionalASN1(&s, &gotPresent, tag)
+			switch {
+			case ok != (!isPresent || t.OK) || gotPresent != isPresent:
+				res.fail("s.ReadOptionalASN1(&s, _, %#02x) [aliased]: ok=%v present=%v", q, ok, gotPresent)
+			case ok && isPresent && !bytes.Equal(s, t.Content):
+				res.fail("s.ReadOptionalASN1(&s, _, %#02x) [aliased]: s=%x, want contents %x", q, []byte(s), t.Content)
+			case ok && !isPresent && !bytes.Equal(s, in):
+				res.fail("s.ReadOptionalASN1(&s, _, %#02x) [aliased] changed s although the element is absent", q)
+			}
+		}
 		present := len(in) > 0 && in[0] == q
 		if got := str().PeekASN1Tag(tag); got != present {
 			res.fail("PeekASN1Tag(%#02x) = %v on first octet %x", q, got, in[:min(1, len(in))])
